@@ -332,7 +332,7 @@ func (b *builder) attrs(as []ad.Attr) {
 		body := func() {
 			b.val(a.Val)
 			if len(a.Default) > 0 {
-				Default(jsonValue(a.Default, kindOf(a.Type)))
+				Default(jsonValue(a.Default, b.defaultKind(a.Type)))
 			}
 			for _, m := range a.Meta {
 				Meta(m[0], m[1:]...)
